@@ -8,6 +8,7 @@ import (
 	"golang.org/x/tools/go/cfg"
 
 	"rscheck/cfgq"
+	"rscheck/core"
 )
 
 // edgeFacts returns the atoms whose truth value is known after leaving block
@@ -38,15 +39,15 @@ func edgeFacts(g *cfgq.Graph, b *cfg.Block, succ int) []cfgq.Fact {
 	} else if b.Kind == cfg.KindSwitchNextCase {
 		return nil
 	}
-	return expandLocals(g, cfgq.Facts(cond, succ == 0), 0)
+	return expandLocals(g, cfgq.Facts(cond, succ == 0), cond, 0)
 }
 
 // expandLocals makes a condition carried in a boolean local transparent:
 // `match := a == b; if !match { ... }` establishes the same facts as
 // `if !(a == b)`. The local must be assigned exactly once and the variables its
-// definition mentions must not be written anywhere else (so the definition
-// still holds where the local is tested).
-func expandLocals(g *cfgq.Graph, facts []cfgq.Fact, depth int) []cfgq.Fact {
+// definition mentions must not be written between that assignment and the test
+// `at` (so the definition still holds where the local is tested).
+func expandLocals(g *cfgq.Graph, facts []cfgq.Fact, at ast.Node, depth int) []cfgq.Fact {
 	var out []cfgq.Fact
 	for _, f := range facts {
 		out = append(out, f)
@@ -62,22 +63,95 @@ func expandLocals(g *cfgq.Graph, facts []cfgq.Fact, depth int) []cfgq.Fact {
 		if def == nil {
 			continue
 		}
-		stable := true
-		ast.Inspect(def, func(n ast.Node) bool {
-			if x, isId := n.(*ast.Ident); isId {
-				if v, isVar := g.Info.Uses[x].(*types.Var); isVar && !v.IsField() && v.Pkg() != nil && v.Parent() != v.Pkg().Scope() {
-					if writes(g, v) > 1 {
-						stable = false
-					}
-				}
-			}
-			return true
-		})
-		if stable {
-			out = append(out, expandLocals(g, cfgq.Facts(def, f.Val), depth+1)...)
+		if stableAt(g, def, at) {
+			out = append(out, expandLocals(g, cfgq.Facts(def, f.Val), at, depth+1)...)
 		}
 	}
 	return out
+}
+
+// stableAt: no local variable that def mentions can be written after def was
+// evaluated and before the test `at` is reached (a write W breaks this when W
+// is reachable from def and `at` from W, both without re-evaluating def).
+func stableAt(g *cfgq.Graph, def ast.Expr, at ast.Node) bool {
+	var vars []*types.Var
+	ast.Inspect(def, func(n ast.Node) bool {
+		if x, isId := n.(*ast.Ident); isId {
+			if v, isVar := g.Info.Uses[x].(*types.Var); isVar && !v.IsField() && v.Pkg() != nil && v.Parent() != v.Pkg().Scope() {
+				vars = append(vars, v)
+			}
+		}
+		return true
+	})
+	dp, okD := g.Find(def)
+	tp, okT := g.Find(at)
+	if !okD || !okT {
+		for _, v := range vars {
+			if writes(g, v) > 1 {
+				return false
+			}
+		}
+		return true
+	}
+	isDef := func(n ast.Node) bool { return n == dp.Node() }
+	for _, v := range vars {
+		ws, wild := writeNodes(g, v)
+		if wild {
+			return false
+		}
+		for _, w := range ws {
+			wp, ok := g.Find(w)
+			if !ok {
+				return false // written somewhere the graph does not cover (a function literal)
+			}
+			if wp.Node() == dp.Node() {
+				continue
+			}
+			wn := wp.Node()
+			reachW := g.Path(cfgq.Query{From: dp, After: true, Avoid: isDef, Target: func(n ast.Node) bool { return n == wn }}) != nil
+			if !reachW {
+				continue
+			}
+			if wn == tp.Node() || g.Path(cfgq.Query{From: wp, After: true, Avoid: isDef, Target: func(n ast.Node) bool { return n == tp.Node() }}) != nil {
+				return false
+			}
+		}
+	}
+	return true
+}
+
+// writeNodes lists the statements that assign o; wild when its address is taken.
+func writeNodes(g *cfgq.Graph, o types.Object) (nodes []ast.Node, wild bool) {
+	is := func(e ast.Expr) bool {
+		id, ok := ast.Unparen(e).(*ast.Ident)
+		return ok && (g.Info.Uses[id] == o || g.Info.Defs[id] == o)
+	}
+	ast.Inspect(g.Body, func(m ast.Node) bool {
+		switch s := m.(type) {
+		case *ast.AssignStmt:
+			for _, l := range s.Lhs {
+				if is(l) {
+					nodes = append(nodes, s)
+				}
+			}
+		case *ast.IncDecStmt:
+			if is(s.X) {
+				nodes = append(nodes, s)
+			}
+		case *ast.RangeStmt:
+			for _, e := range []ast.Expr{s.Key, s.Value} {
+				if e != nil && is(e) {
+					nodes = append(nodes, e) // the control-flow graph holds key and value, not the statement
+				}
+			}
+		case *ast.UnaryExpr:
+			if s.Op == token.AND && is(s.X) {
+				wild = true
+			}
+		}
+		return true
+	})
+	return
 }
 
 // writes counts the assignments (of any kind) to o in the graph's function body.
@@ -139,7 +213,7 @@ func edgeHas(g *cfgq.Graph, b *cfg.Block, succ int, match func(cfgq.Fact) bool) 
 	// De Morgan: leaving `A && B` through its false edge says "A false or B
 	// false"; the edge still establishes a property that follows from either
 	if len(edgeFacts(g, b, succ)) == 0 && readable(g, b) {
-		return implied(g, cfgq.CondOf(b), succ == 0, match, 0)
+		return implied(g, cfgq.CondOf(b), cfgq.CondOf(b), succ == 0, match, 0)
 	}
 	return false
 }
@@ -171,7 +245,7 @@ func readable(g *cfgq.Graph, b *cfg.Block) bool {
 // implied: does `cond == val` imply the property recognised by match? A
 // conjunction implies it if one conjunct does, a disjunction only if every
 // disjunct does; negation and boolean locals are looked through.
-func implied(g *cfgq.Graph, cond ast.Expr, val bool, match func(cfgq.Fact) bool, depth int) bool {
+func implied(g *cfgq.Graph, at ast.Node, cond ast.Expr, val bool, match func(cfgq.Fact) bool, depth int) bool {
 	cond = ast.Unparen(cond)
 	if depth > 6 {
 		return false
@@ -179,24 +253,24 @@ func implied(g *cfgq.Graph, cond ast.Expr, val bool, match func(cfgq.Fact) bool,
 	switch x := cond.(type) {
 	case *ast.UnaryExpr:
 		if x.Op == token.NOT {
-			return implied(g, x.X, !val, match, depth+1)
+			return implied(g, at, x.X, !val, match, depth+1)
 		}
 	case *ast.BinaryExpr:
 		if x.Op == token.LAND || x.Op == token.LOR {
 			conj := (x.Op == token.LAND) == val // the statement is "both" (true) or "at least one of" (false)
-			l, r := implied(g, x.X, val, match, depth+1), implied(g, x.Y, val, match, depth+1)
+			l, r := implied(g, at, x.X, val, match, depth+1), implied(g, at, x.Y, val, match, depth+1)
 			if conj {
 				return l || r
 			}
 			return l && r
 		}
 	}
-	for _, f := range expandLocals(g, []cfgq.Fact{{Expr: cond, Val: val}}, 0) {
+	for _, f := range expandLocals(g, []cfgq.Fact{{Expr: cond, Val: val}}, at, 0) {
 		if match(f) {
 			return true
 		}
 		if f.Expr != cond { // a boolean local standing for a compound condition
-			if _, isBin := ast.Unparen(f.Expr).(*ast.BinaryExpr); isBin && implied(g, f.Expr, f.Val, match, depth+1) {
+			if _, isBin := ast.Unparen(f.Expr).(*ast.BinaryExpr); isBin && implied(g, at, f.Expr, f.Val, match, depth+1) {
 				return true
 			}
 		}
@@ -214,4 +288,35 @@ func onlyVia(g *cfgq.Graph, target cfgq.Point, match func(cfgq.Fact) bool) (bool
 		AvoidEdge: func(b *cfg.Block, s int) bool { return edgeHas(g, b, s, match) },
 	})
 	return w == nil, w
+}
+
+// withViews runs the rule set on the tree as written and, when that leaves
+// something open, on the normalised views of the tree as well. The driver
+// adopts only what a view proves; a located-and-wrong construct that only a
+// view lets the rules read (the rules stopped early on the tree as written,
+// say at a skeleton they did not recognise) would otherwise vanish together
+// with the open obligation the view discharges. Such a failure is reported
+// here, under the key it has on the view.
+func withViews(c *core.Ctx, run func(*core.Ctx)) {
+	run(c)
+	if c.Program == nil || c.Program.Orig != nil || c.Program.Inlined == nil || !c.Open() {
+		return
+	}
+	have := map[string]bool{}
+	for _, o := range c.Obs {
+		have[o.FullKey()] = true
+	}
+	for _, v := range append([]*core.Program{c.Program.Inlined}, c.Program.Views...) {
+		c2 := core.NewCtx(v, c.Prop, c.Tier)
+		func() {
+			defer func() { _ = recover() }()
+			run(c2)
+		}()
+		for _, o := range c2.Obs {
+			if o.Status == "FAIL" && !have[o.FullKey()] {
+				have[o.FullKey()] = true
+				c.Check(o.Rule, o.Key, token.NoPos, false, "[read on the normalised view of the tree, at "+o.Pos+"] "+o.Detail, o.Witness...)
+			}
+		}
+	}
 }
